@@ -13,7 +13,10 @@
 (***************************************************************************)
 EXTENDS Integers, Sequences, FiniteSets, TLC, Json
 
-CONSTANTS Ids, MaxSteps, MaxDisc, Export, ExportOneIn
+CONSTANTS Ids, MaxSteps, MaxDisc, Export, ExportOneIn,
+          StepDt,        \* every step advances its endpoint by StepDt ms (>= the 250 ms send rate: every update emits)
+          TimeoutS,      \* time-out of the connect tokens in seconds
+          TimeoutSteps   \* the smallest n with n * StepDt > TimeoutS * 1000: an endpoint that heard nothing for n steps gives up
 
 VARIABLES sn,    \* server netcode session per id: "none" | "pending" | "conn"
           sr,    \* server renet connection per id: "absent" | "conn" | "disc"
@@ -24,20 +27,20 @@ VARIABLES sn,    \* server netcode session per id: "none" | "pending" | "conn"
           evq,   \* server events not yet read
           seen,  \* per id: is a ClientConnected outstanding (observer)
           asked, \* ids whose disconnection somebody asked for
+          cq,    \* client: steps since the last packet the netcode client accepted (age of last_packet_received_time)
+          sq,    \* server: steps since the last packet accepted from the connected client
+          tout,  \* ids for which a time-out fired on either side (history)
           ctl, hist
-vars == <<sn, sr, cn, cr, up, down, evq, seen, asked, ctl, hist>>
+vars == <<sn, sr, cn, cr, up, down, evq, seen, asked, cq, sq, tout, ctl, hist>>
 
 Init == /\ sn = [i \in Ids |-> "none"] /\ sr = [i \in Ids |-> "absent"]
         /\ cn = [i \in Ids |-> "req"] /\ cr = [i \in Ids |-> "connecting"]
         /\ up = [i \in Ids |-> {}] /\ down = [i \in Ids |-> {}]
         /\ evq = <<>> /\ seen = [i \in Ids |-> FALSE] /\ asked = {}
+        /\ cq = [i \in Ids |-> 0] /\ sq = [i \in Ids |-> 0] /\ tout = {}
         /\ ctl = [steps |-> 0, ndisc |-> 0, bad |-> FALSE]
         /\ hist = <<>>
 
-\* every step advances its endpoint by the send rate of the netcode layer (250 ms), so that every update emits what the
-\* endpoint's state calls for (request / response / keep-alive); the exported configuration uses a 5 s time-out, longer than
-\* any modelled fault phase (MaxSteps steps)
-StepDt == 250
 Can == ctl.steps < MaxSteps
 Rec(s) == hist' = IF Export THEN hist \o s ELSE hist
 Tick == ctl' = [ctl EXCEPT !.steps = @ + 1]
@@ -46,31 +49,43 @@ Tick == ctl' = [ctl EXCEPT !.steps = @ + 1]
 (* NetcodeClientTransport::update + send_packets (client.rs:84-165)        *)
 (***************************************************************************)
 \* what the client's netcode layer does with the datagrams that reached it
+\* in arrival order: the server emits a challenge before a keep-alive and its disconnect datagram after everything else, so
+\* datagrams that arrive together can complete the handshake and end the session in one update
 ClientRecv(state, d) ==
-    IF "disconnect" \in d /\ state = "conn" THEN "disc"
-    ELSE IF "denied" \in d /\ state \in {"req", "resp"} THEN "disc"
-    ELSE IF "ka" \in d /\ state = "resp" THEN "conn"
-    ELSE IF "chal" \in d /\ state = "req" THEN "resp"
-    ELSE state
+    LET a == IF "chal" \in d /\ state = "req" THEN "resp" ELSE state
+        b == IF "denied" \in d /\ a \in {"req", "resp"} THEN "disc" ELSE a
+        c == IF "ka" \in d /\ b = "resp" THEN "conn" ELSE b
+    IN IF "disconnect" \in d /\ c = "conn" THEN "disc" ELSE c
+
+\* does one of the datagrams refresh last_packet_received_time of a client in this state (client.rs:208-243) ?
+ClientFresh(state, d) == \/ ("chal" \in d /\ state = "req")
+                         \/ ("ka" \in d /\ state \in {"resp", "conn"})
+                         \/ ("payload" \in d /\ state = "conn")
 
 ClientStep(i, pass) ==
     /\ Can
     /\ LET arrived == IF pass THEN down[i] ELSE {} IN
        IF cn[i] = "disc" THEN
             \* netcode already disconnected: the renet client is marked disconnected, nothing else happens
-            /\ cr' = [cr EXCEPT ![i] = "disc"] /\ UNCHANGED <<cn, up>>
+            /\ cr' = [cr EXCEPT ![i] = "disc"] /\ UNCHANGED <<cn, up, cq, tout>>
        ELSE IF cr[i] = "disc" THEN
             \* the application disconnected the renet client: netcode disconnects and tells the server
-            /\ cn' = [cn EXCEPT ![i] = "disc"] /\ up' = [up EXCEPT ![i] = @ \cup {"disconnect"}] /\ UNCHANGED cr
+            /\ cn' = [cn EXCEPT ![i] = "disc"] /\ up' = [up EXCEPT ![i] = @ \cup {"disconnect"}] /\ UNCHANGED <<cr, cq, tout>>
        ELSE LET status == IF cn[i] = "conn" THEN "connected" ELSE "connecting"
-                st1 == ClientRecv(cn[i], arrived)
+                st0 == ClientRecv(cn[i], arrived)
+                \* packets are processed at the old clock, then netcode_client.update(duration) advances it and checks the time-out
+                age == IF ClientFresh(cn[i], arrived) THEN 1 ELSE cq[i] + 1
+                timedOut == st0 # "disc" /\ age >= TimeoutSteps
+                st1 == IF timedOut THEN "disc" ELSE st0
                 out == CASE st1 = "req" -> {"req"} [] st1 = "resp" -> {"resp"} [] st1 = "conn" -> {"ka", "payload"} [] OTHER -> {}
             IN /\ cr' = [cr EXCEPT ![i] = status]
                /\ cn' = [cn EXCEPT ![i] = st1]
                /\ up' = [up EXCEPT ![i] = @ \cup out]
+               /\ cq' = [cq EXCEPT ![i] = age]
+               /\ tout' = IF timedOut THEN tout \cup {i} ELSE tout
     /\ down' = [down EXCEPT ![i] = {}]
     /\ Rec(<<[a |-> "relay", c |-> i, dir |-> "down", ops |-> <<IF pass THEN "pass" ELSE "drop">>], [a |-> "cstep", c |-> i, dt |-> StepDt]>>)
-    /\ Tick /\ UNCHANGED <<sn, sr, evq, seen, asked>>
+    /\ Tick /\ UNCHANGED <<sn, sr, evq, seen, asked, sq>>
 
 (***************************************************************************)
 (* NetcodeServerTransport::update + send_packets (server.rs:114-169)       *)
@@ -89,17 +104,25 @@ ServerOne(i, arrived, s) ==
         r1 == IF peerLeft THEN "absent" ELSE IF connected THEN "conn" ELSE s.sr[i]
         ev1 == (IF connected THEN <<[type |-> "Connected", id |-> i]>> ELSE <<>>)
                \o (IF peerLeft /\ (connected \/ s.sr[i] # "absent") THEN <<[type |-> "Disconnected", id |-> i]>> ELSE <<>>)
+        \* update_client: the clock was advanced before the datagrams were processed, so a client heard in this update has age 0;
+        \* a connected client that stayed silent for TimeoutSteps updates is told to go and removed from both layers
+        age == IF connected \/ (s.sn[i] = "conn" /\ arrived \cap {"ka", "payload"} # {}) THEN 0 ELSE s.sq[i] + 1
+        timedOut == n1 = "conn" /\ age >= TimeoutSteps
+        n1t == IF timedOut THEN "none" ELSE n1
+        r1t == IF timedOut THEN "absent" ELSE r1
+        ev1t == IF timedOut /\ r1 # "absent" THEN <<[type |-> "Disconnected", id |-> i]>> ELSE <<>>
         \* for disconnection_id in server.disconnections_id(): netcode.disconnect -> ClientDisconnected -> remove_connection
-        push == r1 = "disc"
-        n2 == IF push THEN "none" ELSE n1
-        r2 == IF push THEN "absent" ELSE r1
+        push == r1t = "disc"
+        n2 == IF push THEN "none" ELSE n1t
+        r2 == IF push THEN "absent" ELSE r1t
         ev2 == IF push THEN <<[type |-> "Disconnected", id |-> i]>> ELSE <<>>
         out == (IF s.sn[i] = "none" /\ n1 = "pending" THEN {"chal"} ELSE {})
                \cup (IF s.sn[i] = "pending" /\ "req" \in arrived /\ n1 = "pending" THEN {"chal"} ELSE {})
                \cup (IF n2 = "conn" THEN {"ka", "payload"} ELSE {})
-               \cup (IF push THEN {"disconnect"} ELSE {})
-    IN [sn |-> [s.sn EXCEPT ![i] = n2], sr |-> [s.sr EXCEPT ![i] = r2], evq |-> s.evq \o ev1 \o ev2,
-        down |-> [s.down EXCEPT ![i] = @ \cup out]]
+               \cup (IF push \/ timedOut THEN {"disconnect"} ELSE {})
+    IN [sn |-> [s.sn EXCEPT ![i] = n2], sr |-> [s.sr EXCEPT ![i] = r2], evq |-> s.evq \o ev1 \o ev1t \o ev2,
+        down |-> [s.down EXCEPT ![i] = @ \cup out], sq |-> [s.sq EXCEPT ![i] = IF n2 = "conn" THEN age ELSE 0],
+        tout |-> IF timedOut THEN s.tout \cup {i} ELSE s.tout]
 
 RECURSIVE ServerAll(_, _, _)
 ServerAll(ids, pass, s) ==
@@ -109,14 +132,14 @@ ServerAll(ids, pass, s) ==
 
 ServerStep(pass) ==
     /\ Can
-    /\ LET s == ServerAll(Ids, pass, [sn |-> sn, sr |-> sr, evq |-> evq, down |-> down]) IN
-       /\ sn' = s.sn /\ sr' = s.sr /\ evq' = s.evq /\ down' = s.down
+    /\ LET s == ServerAll(Ids, pass, [sn |-> sn, sr |-> sr, evq |-> evq, down |-> down, sq |-> sq, tout |-> tout]) IN
+       /\ sn' = s.sn /\ sr' = s.sr /\ evq' = s.evq /\ down' = s.down /\ sq' = s.sq /\ tout' = s.tout
     /\ up' = [i \in Ids |-> {}]
     /\ Rec([k \in 1..Cardinality(Ids) |->
               LET i == CHOOSE x \in Ids : Cardinality({y \in Ids : y < x}) = k - 1 IN
               [a |-> "relay", c |-> i, dir |-> "up", ops |-> <<IF pass[i] THEN "pass" ELSE "drop">>]]
            \o <<[a |-> "sstep", dt |-> StepDt]>>)
-    /\ Tick /\ UNCHANGED <<cn, cr, seen, asked>>
+    /\ Tick /\ UNCHANGED <<cn, cr, seen, asked, cq>>
 
 \* the application reads one server event: they must alternate per id
 ReadEvent ==
@@ -125,7 +148,7 @@ ReadEvent ==
        /\ ctl' = [ctl EXCEPT !.bad = @ \/ (e.type = "Connected" /\ seen[e.id]) \/ (e.type = "Disconnected" /\ ~seen[e.id])]
        /\ seen' = [seen EXCEPT ![e.id] = (e.type = "Connected")]
     /\ evq' = Tail(evq)
-    /\ UNCHANGED <<sn, sr, cn, cr, up, down, asked, hist>>
+    /\ UNCHANGED <<sn, sr, cn, cr, up, down, asked, cq, sq, tout, hist>>
 
 \* application initiated disconnects (RenetServer::disconnect, RenetClient::disconnect, transport.disconnect())
 Disc(i, who) ==
@@ -137,7 +160,7 @@ Disc(i, who) ==
     /\ asked' = asked \cup {i}
     /\ ctl' = [ctl EXCEPT !.steps = @ + 1, !.ndisc = @ + 1]
     /\ Rec(<<[a |-> "disc", c |-> i, who |-> who]>>)
-    /\ UNCHANGED <<sn, down, evq, seen>>
+    /\ UNCHANGED <<sn, down, evq, seen, cq, sq, tout>>
 
 Next == \/ \E i \in Ids : \E pass \in BOOLEAN : ClientStep(i, pass)
         \/ \E pass \in [Ids -> BOOLEAN] : ServerStep(pass)
@@ -152,12 +175,17 @@ LockStep == \A i \in Ids : /\ (sr[i] = "conn" => sn[i] = "conn")
                            /\ (sn[i] = "conn" => sr[i] \in {"conn", "disc"})
 \* C20_EventsOnce
 EventsOnce == ~ctl.bad
-\* nothing disconnects unless somebody asked for it (no timeouts in this model: interference alone never disconnects)
-OnlyAsked == \A i \in Ids : (i \notin asked) => (cn[i] # "disc" /\ cr[i] # "disc" /\ sr[i] # "disc")
+\* nothing disconnects unless somebody asked for it or an endpoint heard nothing for a whole time-out: interference alone
+\* never disconnects (C20_OnlyTimeouts)
+OnlyAsked == \A i \in Ids : (i \notin asked \cup tout) => (cn[i] # "disc" /\ cr[i] # "disc" /\ sr[i] # "disc")
+\* a time-out fires only after TimeoutSteps silent updates, and a connected session whose datagrams all pass is never timed out
+NoEarlyTimeout == \A i \in Ids : cq[i] <= TimeoutSteps /\ sq[i] <= TimeoutSteps
 
 Done == ctl.steps = MaxSteps
 ExportInv == (Export /\ Done /\ RandomElement(1..ExportOneIn) = 1) => PrintT(<<"PATH", ToJson([done |-> TRUE, steps |-> hist])>>)
-ExportCfg == PrintT(<<"CFG", ToJson([clients |-> <<1, 2>>, max_clients |-> 4, timeout_s |-> 5, allow_timeouts |-> FALSE])>>)
+ExportCfg == PrintT(<<"CFG", ToJson([clients |-> <<1, 2>>, max_clients |-> 4, timeout_s |-> TimeoutS, step_dt |-> StepDt, allow_timeouts |-> (TimeoutSteps <= MaxSteps)])>>)
 ASSUME ExportCfg
-View == <<sn, sr, cn, cr, up, down, evq, seen, asked, ctl>>
+\* the silence counters cannot matter when no time-out is reachable within MaxSteps
+View == IF TimeoutSteps > MaxSteps THEN <<sn, sr, cn, cr, up, down, evq, seen, asked, ctl>>
+        ELSE <<sn, sr, cn, cr, up, down, evq, seen, asked, cq, sq, tout, ctl>>
 =============================================================================
